@@ -30,3 +30,4 @@ def check(ctx):
     ctx.floor("PICKLE-pairing", 4)
     drivers.results_helpers(ctx)
     drivers.autosave_content(ctx)
+    drivers.autosave_callers(ctx)
